@@ -46,6 +46,16 @@ Proof. repeat split. Qed.
    covariance pairs in the sorted order in which they are looked up *)
 Theorem C12_merged_request_covers_each_metric ms s : In (MAggr s) ms -> covers (merged_spec ms) s.
 Proof. exact (merged_spec_covers ms s). Qed.
+(* power analysis: dispatch is by the POWER class of each metric (PowerBaseAggregated / other PowerBase / none), whatever
+   its analysis class; the ungrouped request covers what every aggregated power metric declared, the result has exactly
+   one entry per metric that has a power analysis, in the order of the definition *)
+Theorem C12_power_request_covers_each_metric ps s : In (PwAggr s) ps -> covers (power_merged_spec ps) s.
+Proof. exact (power_merged_spec_covers ps s). Qed.
+Theorem C12_power_result_entries ps j :
+  In j (power_entries 0 ps) <-> exists p, nth_error ps j = Some p /\ p <> PwNone.
+Proof. exact (power_entries_spec0 ps j). Qed.
+Theorem C12_power_result_order ps a b l1 l2 : power_entries 0 ps = l1 ++ a :: b :: l2 -> a < b.
+Proof. exact (power_entries_increasing ps 0 a b l1 l2). Qed.
 
 Print Assumptions C12_pairs_with_control.
 Print Assumptions C12_pairs_with_control_order.
@@ -54,3 +64,6 @@ Print Assumptions C12_all_pairs.
 Print Assumptions C12_guard.
 Print Assumptions C12_entry_depends_only_on_declared_statistics.
 Print Assumptions C12_merged_request_covers_each_metric.
+Print Assumptions C12_power_request_covers_each_metric.
+Print Assumptions C12_power_result_entries.
+Print Assumptions C12_power_result_order.
